@@ -56,10 +56,26 @@ type ClosureV struct {
 type State struct {
 	arr map[string]Term
 	now Term
+	stk map[*ssa.Alloc]Val // struct-typed locals that never escape ("stack structs"), by value
+}
+
+// StackAddrV is the address of (a field path inside) a stack struct.
+type StackAddrV struct {
+	A    *ssa.Alloc
+	Path []int
+}
+
+func (s *State) withStk(a *ssa.Alloc, v Val) *State {
+	n := &State{arr: s.arr, now: s.now, stk: make(map[*ssa.Alloc]Val, len(s.stk)+1)}
+	for k, x := range s.stk {
+		n.stk[k] = x
+	}
+	n.stk[a] = v
+	return n
 }
 
 func (s *State) with(name string, t Term) *State {
-	n := &State{arr: make(map[string]Term, len(s.arr)+1), now: s.now}
+	n := &State{arr: make(map[string]Term, len(s.arr)+1), now: s.now, stk: s.stk}
 	for k, v := range s.arr {
 		n.arr[k] = v
 	}
@@ -68,7 +84,7 @@ func (s *State) with(name string, t Term) *State {
 }
 
 func (s *State) withNow(t Term) *State {
-	return &State{arr: s.arr, now: t}
+	return &State{arr: s.arr, now: t, stk: s.stk}
 }
 
 func (s *State) keys() []string {
